@@ -91,7 +91,10 @@ pub fn run_check(prop_id: &str, tier: Tier, seed: u64, part_out: Option<&Path>, 
                 continue;
             }
             let path = verif_root().join(&r.file);
-            match replay_file(&path, tier) {
+            known::set_strict(true);
+            let res = replay_file(&path, tier);
+            known::set_strict(false);
+            match res {
                 Ok(Some(_msg)) => {
                     let line = format!("KNOWN-FINDING: property={} {} [{}; reproducer {}]", prop_id, f.what, f.id, r.file);
                     println!("{line}");
